@@ -28,7 +28,8 @@ MODELLED = ["Engine.price / compute_level_l (single process) / price_with_consta
             "numpy: np.pad zero padding, np.empty (arbitrary content), np.mean, scipy.stats.moment (central moments)",
             "payoff components j >= 1 of a vector payoff: not in the Coq model (price() and mlmc_results only read component 0); "
             "their stored rows are checked by the implementation oracle",
-            "multiprocess callback path (nb_of_processes != 1), spot statistics, logging: not modelled; the log2 regression of the rates "
+            "multiprocess callback path (nb_of_processes = 2, real pool): NOT in the Coq model (single process); implementation oracle on 3-4 runs "
+            "(rows == uniquely tagged samples as a multiset, one run with 12 500 paths on a level in one pass); spot statistics, logging: not modelled; the log2 regression of the rates "
             "only feeds the arguments of the criteria callbacks (arbitrary oracles in the model) and is exercised in 15% of the histories",
             "control-variate variant (with_cv rows = Y - b (X - price), ml/vl/... from the adjusted rows): implementation oracle only "
             "(exact Fraction re-computation; skipped levels are counted and the check breaks when more than 25% are skipped)",
@@ -124,6 +125,7 @@ def correspond(res):
     _fixed_variant(res, rng)
     _engine_reuse(res, rng)
     _real_coupling(res)
+    _multiprocess(res, rng)
     _control_variates(res, rng)
 
 
@@ -227,6 +229,68 @@ def _real_coupling(res):
             if variant == "fixed" and any(len(a[0]) != second[2] for a in reused):
                 res.violation("real coupling process: fixed-level variant does not hold the configured number of paths on every level",
                               {"kind": "real", "variant": variant, "second": list(second), "rows": [len(a[0]) for a in reused]})
+
+
+def _mp_run(spec):
+    """one multi-process pricing (nb_of_processes = 2, real pathos pool) of the scripted history in `spec`;
+    returns (violations, max paths in one pass)"""
+    import warnings
+    import numpy as np
+    from rpylib.montecarlo.multilevel.engine import Engine
+    from rpylib.montecarlo.configuration import ConfigurationMultiLevel, ConvergenceRates
+    from mcscript import Shared, ScriptedCoupling, scripted_criteria, make_product, MP_COUNTERS, WarningCatcher
+    sh = Shared()
+    sh.use_mp_counters = True
+    cp = ScriptedCoupling(D.sample_fn(spec["salt"], big=True), D.cost_fn(spec["ctab"]), df=spec["df"], shared=sh)
+    conf = ConfigurationMultiLevel(convergence_rates=ConvergenceRates(1.0, 2.0, 1.0), convergence_criteria=scripted_criteria(spec["atab"], spec["vtab"], sh),
+                                   initial_level=spec["L0"], maximum_level=spec["Lmax"], initial_mc_paths=spec["N0"], nb_of_processes=2, seed=None)
+    with WarningCatcher(), warnings.catch_warnings(), np.errstate(all="ignore"):
+        warnings.simplefilter("ignore")
+        st = Engine(conf, cp).price(make_product(notional=spec["notional"]), rmse=0.125)
+        Nl = [int(x) for x in st.mlmc_results.Nl]
+        fine = [np.array(st.simulation_payoff_with_fine_process(l)) for l in range(len(st.mc_statistics))]
+        coarse = [np.array(st.simulation_payoff_with_coarse_process(l)) for l in range(len(st.mc_statistics))]
+        price = float(st.price())
+    drawn = [MP_COUNTERS[l].value for l in range(len(Nl))]
+    payload = dict(spec, Nl=Nl, paths_simulated=drawn)
+    out = []
+    total = Fraction(0)
+    for l in range(len(Nl)):
+        want = sorted(D.expected_row(spec, l, n) for n in range(drawn[l]))
+        got = sorted((Fraction(float(a)), Fraction(float(b))) for a, b in zip(fine[l], coarse[l]))
+        if Nl[l] != drawn[l] or len(got) != drawn[l]:
+            out.append(("multi-process run: reported N_l / stored rows differ from the number of paths simulated at the level",
+                        dict(payload, level=l, rows_stored=len(got))))
+        elif got != want:
+            gs = set(got)
+            out.append(("multi-process run: the stored rows are not the simulated samples, each exactly once (samples dropped, duplicated, overwritten "
+                        "or rows never written)", dict(payload, level=l, samples_missing_from_the_rows=sum(1 for w in want if w not in gs),
+                                                      rows_equal_to_zero=int(np.sum((fine[l] == 0) & (coarse[l] == 0))))))
+        if want:
+            total += sum((f - c for f, c in want), Fraction(0)) / len(want)
+    if abs(Fraction(price) - total) > Fraction(1, 10 ** 9) * max(1, abs(total)):
+        out.append(("multi-process run: price() is not the sum over levels of the mean of (fine - coarse) over the simulated samples",
+                    dict(payload, reported=price, from_samples=float(total))))
+    return out
+
+
+def _multiprocess(res, rng):
+    """the multi-process branch of compute_level_l (nb_of_processes = 2, the real pathos pool): implementation oracle only.
+    Pool workers simulate in any order, so the draw index comes from a shared-memory counter per level (unique tag per path)
+    and the stored rows are compared with the tagged samples AS A MULTISET: every simulated sample stored exactly once, no row
+    left unwritten, N_l = number of paths simulated.  One run puts 12 500 paths on a level in one pass."""
+    runs = [{"L0": 1, "Lmax": 1, "N0": 50, "atab": [[12500, 60]], "vtab": [True]},
+            {"L0": 2, "Lmax": 3, "N0": 30, "atab": [[200, 150, 40], [200, 150, 45], [200, 150, 45], [200, 150, 45, 10400]], "vtab": [False, True]},
+            {"L0": 0, "Lmax": 2, "N0": 7, "atab": [[300], [300, 20], [320, 25]], "vtab": [False, True]}]
+    if res.tier == "thorough":
+        runs.append({"L0": 1, "Lmax": 2, "N0": 10, "atab": [[25000, 10], [25000, 20001]], "vtab": [True]})
+    for k, run in enumerate(runs):
+        spec = dict(run, kind="multiprocess", salt=rng.randrange(17), ctab=[1.0] * 8, df=rng.choice([1.0, 0.5]), notional=rng.choice([1.0, 2.0]),
+                    dim=1, big=True, epoch=0, nb_of_processes=2)
+        res.count(("mp", k, json.dumps(spec, sort_keys=True)), nontrivial=True, kind="multi-process (2 workers)")
+        res.bump("multiprocess_max_paths_in_one_pass", max(max(r) for r in spec["atab"]))
+        for what, payload in _mp_run(spec):
+            res.violation(what, payload)
 
 
 def _fixed_variant(res, rng):
@@ -431,6 +495,13 @@ def search(res):
 def replay(path):
     data = json.load(open(path))
     print(json.dumps({k: v for k, v in data.items() if k != "observed"}, indent=1)[:3000])
+    if data.get("kind") == "multiprocess":
+        spec = {k: data[k] for k in ("L0", "Lmax", "N0", "atab", "vtab", "kind", "salt", "ctab", "df", "notional", "dim", "big", "epoch", "nb_of_processes")}
+        v = _mp_run(spec)
+        for what, det in v:
+            print("VIOLATED:", what, {k: det[k] for k in det if k in ("level", "Nl", "paths_simulated", "samples_missing_from_the_rows",
+                                                                        "rows_equal_to_zero", "reported", "from_samples", "rows_stored")})
+        return 1 if v else 0
     if data.get("kind") == "sequence":
         specs = data["sequence"]
         rc = 0
